@@ -1,5 +1,5 @@
-(* C09 -- concrete witnesses: where the code as it is does NOT reflect the new state, and
-   non-vacuity of the positive theorems (all by evaluation of the executable instance). *)
+(* C09 -- concrete witnesses: where the code as it is does NOT reflect the new state (linear transforms
+   with callable parameters), and non-vacuity of the positive theorems (evaluation of the executable instance). *)
 From Coq Require Import List Bool.
 From DV Require Import Base.QcInst Model.TransformState Model.TransformStateRun Model.TransformStateEx
   Gen.TState Model.TransformCfg.
@@ -14,17 +14,6 @@ Lemma linear_callable_stale_after_reset :
   stale_after gen_cfg h_lin_fun (Reset PV nat CV 0) x_obs 0 = true.
 Proof. vm_compute. reflexivity. Qed.
 
-(* BSplineTransform.grid_ with callable parameters replaces the grid without clearing u *)
-Lemma spline_callable_stale_after_grid :
-  stale_after gen_cfg h_ffd_fun (GridSet PV nat CV 0 2) x_obs 0 = true.
-Proof. vm_compute. reflexivity. Qed.
-
-(* DenseVectorFieldTransform.grid_ with a grid that differs only in align_corners rescales the
-   parameters but keeps the old grid: the world-space displacement changes *)
-Lemma dense_grid_align_only_changes_world :
-  x_geq 0 1 = true /\ world_changed gen_cfg h_disp_ten 0 1 = true.
-Proof. vm_compute. split; reflexivity. Qed.
-
 (* non-vacuity *)
 Lemma nonrigid_callable_fresh_after_condition :
   fresh_after gen_cfg h_svf_fun x_cond x_obs 0 = true.
@@ -33,5 +22,13 @@ Lemma dense_fresh_after_data :
   fresh_after gen_cfg h_disp_ten x_data (Disp PV nat CV 0) 0 = true.
 Proof. vm_compute. reflexivity. Qed.
 Lemma dense_grid_other_lattice_keeps_world :
-  x_geq 0 2 = false /\ world_kept gen_cfg h_disp_ten 0 2 = true.
-Proof. vm_compute. split; reflexivity. Qed.
+  world_kept gen_cfg h_disp_ten 0 2 = true.
+Proof. vm_compute. reflexivity. Qed.
+(* repaired: a grid that differs only in align_corners is installed, the world displacement is kept *)
+Lemma dense_grid_align_only_keeps_world :
+  world_kept gen_cfg h_disp_ten 0 1 = true.
+Proof. vm_compute. reflexivity. Qed.
+(* repaired: BSplineTransform.grid_ with callable parameters clears the buffered field *)
+Lemma spline_callable_fresh_after_grid :
+  fresh_after gen_cfg h_ffd_fun (GridSet PV nat CV 0 2) x_obs 0 = true.
+Proof. vm_compute. reflexivity. Qed.
